@@ -40,7 +40,7 @@ func (c17) Plan(tier string) []core.Segment {
 		{Gen: "soup", Profile: "html", Count: scale(tier, 750_000, 10_000_000)},
 		{Gen: "htmlmix", Count: scale(tier, 450_000, 6_000_000), Desc: "templates placing comments, CDATA, PIs, declarations, stray '<', quoted '>' before raw-text elements, as HTML blocks and inline"},
 		{Gen: "lines", Profile: "default", Count: scale(tier, 150_000, 2_000_000)},
-		{Gen: "limits", Profile: "default", Count: scale(tier, 12_000, 300_000), Desc: "documents on numeric thresholds: 999-character labels, 9-digit list numbers, reference digit counts, scheme and domain lengths, line endings on the 8 KiB read window, indentation columns, long runs, deep nesting"},
+		{Gen: "limits", Profile: "default", Count: scale(tier, 4_000, 100_000), Desc: "documents on numeric thresholds: 999-character labels, 9-digit list numbers, reference digit counts, scheme and domain lengths, line endings on the 8 KiB read window, indentation columns, long runs, deep nesting"},
 		{Gen: "inlinex", Profile: "default", Count: scale(tier, 50_000, 1_000_000), Desc: "well-formed inline trees whose delimiter tokens were deleted, duplicated, moved, swapped or respelled: constructs crossing each other's boundaries"},
 		{Gen: "modeldoc", Profile: "full", Count: scale(tier, 30_000, 1_000_000), Desc: "Markdown of model documents: nested containers, structural tabs, laziness, multi-line inline constructs"},
 		{Gen: "modeldoc", Profile: "deep", Count: scale(tier, 3000, 100000), Desc: "Markdown of model documents: nested containers, structural tabs, laziness, multi-line inline constructs", Batch: 2000},
